@@ -30,6 +30,7 @@ func RunAll(run *hlib.Run, prop string, sigPrefixes []string, n int) {
 		}
 	}
 	var seeds []uint64
+	var replayClose []int
 	if lines := run.ReplayLines(); lines != nil {
 		for _, l := range lines {
 			t := strings.Fields(l)
@@ -37,6 +38,11 @@ func RunAll(run *hlib.Run, prop string, sigPrefixes []string, n int) {
 				s, _ := strconv.ParseUint(t[1], 10, 64)
 				for k := 0; k < 20; k++ { // timing is not replayable exactly: repeat
 					seeds = append(seeds, s)
+					c := -1
+					if len(t) >= 3 && strings.HasPrefix(t[2], "closeAtEvent=") {
+						c, _ = strconv.Atoi(strings.TrimPrefix(t[2], "closeAtEvent="))
+					}
+					replayClose = append(replayClose, c)
 				}
 			}
 		}
@@ -46,13 +52,47 @@ func RunAll(run *hlib.Run, prop string, sigPrefixes []string, n int) {
 		}
 	}
 	traces := 0
-	for idx, s := range seeds {
-		if !run.Mine(idx) {
+	type job struct {
+		seed  uint64
+		close int
+	}
+	var jobs []job
+	for i, s := range seeds {
+		c := -1
+		if i < len(replayClose) {
+			c = replayClose[i]
+		}
+		jobs = append(jobs, job{s, c})
+	}
+	for idx := 0; idx < len(jobs); idx++ {
+		if !run.Mine(idx % len(seeds)) {
 			continue
 		}
+		s := jobs[idx].seed
 		sc := Gen(s, prop)
+		sc.CloseAtEvent = jobs[idx].close
+		if sc.CloseAtEvent >= 0 {
+			sc.CloseAfter = -1
+		}
 		res := Run(sc)
+		if prop == "C12" && jobs[idx].close < 0 && res.NewErr == "" && idx < len(seeds) && run.ReplayLines() == nil {
+			// close-point enumeration: re-run this scenario closing after the k-th hook event, for k spread over
+			// the whole run (every k in the thorough tier for short runs)
+			n := len(res.Events)
+			step := n/4 + 1
+			if run.Tier == "thorough" {
+				step = n/24 + 1
+			}
+			r := hlib.NewRand(s)
+			for k := r.Intn(step); k <= n; k += step {
+				jobs = append(jobs, job{s, k})
+			}
+		}
 		desc := "sc " + strconv.FormatUint(s, 10) + " # " + sc.String()
+		if sc.CloseAtEvent >= 0 {
+			desc = fmt.Sprintf("sc %d closeAtEvent=%d # %s", s, sc.CloseAtEvent, sc.String())
+			run.Count("close-point")
+		}
 		if res.NewErr != "" {
 			run.Count("producer-not-created")
 			run.Case(desc + " => " + res.NewErr)
@@ -68,7 +108,11 @@ func RunAll(run *hlib.Run, prop string, sigPrefixes []string, n int) {
 				}
 			}
 			if mine {
-				run.IOFail(f.Sig, "sc "+strconv.FormatUint(s, 10), f.Detail+" | "+sc.String())
+				in := "sc " + strconv.FormatUint(s, 10)
+				if sc.CloseAtEvent >= 0 {
+					in += fmt.Sprintf(" closeAtEvent=%d", sc.CloseAtEvent)
+				}
+				run.IOFail(f.Sig, in, f.Detail+" | "+sc.String())
 			} else {
 				run.Count("other-property-oracle:" + f.Sig)
 			}
